@@ -60,7 +60,7 @@ fn compile(c: &ProgCase) -> miden::Program {
         Some(k) => assembler_with_kernel(k),
         None => assembler(),
     };
-    asm.compile(&c.src).unwrap_or_else(|e| panic!("harness: family program {} must assemble: {e}\n{}", c.name, c.src))
+    asm.compile(&c.src).unwrap_or_else(|e| panic!("SUBJECT: family program {} must assemble: {e}\n{}", c.name, c.src))
 }
 
 /// (main, range, chiplets) lengths of an execution, or the error
@@ -119,14 +119,14 @@ fn find_regime(comp: usize, target: usize) -> Option<ProgCase> {
     for m in 0..=max_m {
         for n in 1..=max_n {
             let c = regime_prog(comp, n, m);
-            let p = asm.compile(&c.src).unwrap_or_else(|e| panic!("harness: regime program {} must assemble: {e}", c.name));
+            let p = asm.compile(&c.src).unwrap_or_else(|e| panic!("SUBJECT: regime program {} must assemble: {e}", c.name));
             let which = ["main", "range", "chiplets"][comp];
             let l = match lens_with(&p, &c) {
                 Ok(l) => l,
                 // the VM cannot even build the trace of this member: it becomes the case for this
                 // target, and check_one reports it (trace_build_panic) instead of the search hiding it
                 Err(e) if e.starts_with("panic:") => return Some(ProgCase { name: format!("regime_{which}_{target}"), ..c }),
-                Err(e) => panic!("harness: regime program {} must execute: {e}", c.name),
+                Err(e) => panic!("SUBJECT: regime program {} must execute: {e}", c.name),
             };
             let v = [l.0, l.1, l.2];
             if v[comp] == target && (0..3).all(|k| k == comp || v[k] < target) {
@@ -365,8 +365,8 @@ fn check_one(ctx: &Ctx, c: &ProgCase, opt: &str, verbose: bool) -> Option<Seen> 
     {
         let mut process = processor::Process::new(program.kernel().clone(), stack_inputs(&c.stack), host_from(advice_inputs(c)), ExecutionOptions::default());
         match guard::catch(|| process.execute(&program).map(|_| ())) {
-            Err(p) => panic!("harness: family program {} panicked in Process::execute: {p}", c.name),
-            Ok(Err(e)) => panic!("harness: family program {} must execute: {e:?}", c.name),
+            Err(p) => panic!("SUBJECT: family program {} panicked in Process::execute: {p}", c.name),
+            Ok(Err(e)) => panic!("SUBJECT: family program {} must execute: {e:?}", c.name),
             Ok(Ok(())) => {}
         }
     }
@@ -378,7 +378,7 @@ fn check_one(ctx: &Ctx, c: &ProgCase, opt: &str, verbose: bool) -> Option<Seen> 
             fail("trace_build_panic", json!({"panic": norm_panic(&p)}), guard::short_panic(&p));
             return None;
         }
-        Ok(Err(e)) => panic!("harness: family program {} must execute: {e:?}", c.name),
+        Ok(Err(e)) => panic!("SUBJECT: family program {} must execute: {e:?}", c.name),
         Ok(Ok(t)) => t,
     };
     let s = trace.trace_len_summary();
